@@ -16,6 +16,10 @@ CHECKS = {
   text="Stateless model checking of the real implementation: the real ignore::WalkParallel runs under a cooperative replay scheduler (feature verif-hooks) and every interleaving of its hooked synchronisation points is executed up to a preemption bound (iterative preemption bounding, CHESS style), with injected Steal::Retry answers and a visitor Quit injected at every visit index, over all small trees; oracle: termination (deadlock / livelock detection) and exact visit multiset.",
   note="Trusted: crossbeam-deque linearizability (each deque operation is one atomic step; Retry is injected), SC behaviour of the RMW/SeqCst atomics, the scheduler hook itself. Not covered: more than 3 (quick) / 4 (thorough) workers, trees above the size bound, schedules needing more preemptions than the bound.",
   tech="stateless model checking: exhaustive schedule exploration of the real code under a controlled scheduler with a preemption bound"),
+ "C11": dict(cat="model_checking", ref="DESIGN.md §3-E2, §4 C11, Appendix A.6",
+  text="Explicit-state exploration of product automata: for every pattern of an enumerated grammar (token strings, a template family exercising the literal extractor, patterns on the extractor's limits and with raw control characters, string literals harvested from the repository's tests) x builder option sets, the REAL matcher's final HIR and extracted inner literals (hooks) are determinised and four automata explorations decide, over ALL byte strings: no match contains a terminator byte; an accepted pattern means on terminator-free lines what it means as written; every byte in non_matching_bytes occurs in no match; a matching line contains one of the candidate literals. Witnesses and one shortest path per product state are replayed on the real RegexMatcher.",
+  note="Trusted: regex-syntax translation and regex-automata determinisation as the meaning of patterns. Unicode word boundaries are decided over ASCII lines (the DFA quits on non-ASCII). Under CRLF the matcher is documented never to match \\r, so 'as written' is judged on lines without \\r and \\n.",
+  tech="explicit-state model checking: BFS over product automata (language inclusion / equivalence over all lines), model bound to the code by replaying paths on the real matcher"),
  "C12": dict(cat="exploration", ref="DESIGN.md §4 C12, Appendix A.4",
   text="Bounded exhaustive enumeration: every glob over a 13-token grammar up to length 3 x all 16 option sets x every path over {a,b,.,/,-,A} up to length 5 (quick) / 6 (thorough) plus non-UTF-8 variants; single globs against an independent reference matcher written from the documented syntax, glob sets (singletons, all-glob sets, mixed-option set, all pairs/triples over a strategy-covering pool) against their member globs.",
   note="Trusted: regex-automata's matching of each member glob's regex; shapes beyond the length bounds are not explored.",
